@@ -27,8 +27,8 @@ CHECKS = {
                 ref='3/C04'),
     'C05': dict(cat='model_checking', engine='E3',
                 technique='own IR symbolic executor on the real Container::_serialize/_deserialize and CheckpointControl collect/load/restore code with every stored value and index an arbitrary symbolic 64-bit pattern (sizes concrete, incl. zero-sized arrays); z3 decides bit-identity of everything read back; executor checks the offset arithmetic for bounds',
-                text='Partial (stated): BINARY modes only. For DenseVector, DenseVectorBlocked<2>, SparseVector, CSR, CSCR, BCSR<2,2>, DenseMatrix of sizes 0..4 (length 0, entry-free, arbitrary row pointers) serialize -> deserialize returns identical sizes, scalars, values (bit-identical) and index arrays, with 64-bit and with 32-bit index type in the stream (indices < 2^32). Checkpoints with up to three objects and identifier lengths 1..30 are restored to the right object in a different order, directly and through the BinaryStream image read by the real load(BinaryStream&).',
-                note='Trusted: clang-14 IR, irsym executor (validated against an ASan native build each run), z3 5.1.0. One defect found and fixed (serialising / shallow-copying any container with a zero-sized array aborted). NOT covered: MatrixMarket / exponent text modes (libstdc++ stream formatting and parsing is not in the IR) - the seeded change in the DenseMatrix mtx reader is NOT detected, and the MatrixMarket empty-row defect mentioned in the property text is not examined; float<->double stream conversion, compression, DistFileIO, Banded.',
+                text='Partial (stated): BINARY modes only. For DenseVector, DenseVectorBlocked<2>, SparseVector, CSR, CSCR, BCSR<2,2>, Banded, DenseMatrix of sizes 0..4 (length 0, entry-free, arbitrary row pointers) serialize -> deserialize returns identical sizes, scalars, values (bit-identical) and index arrays, with 64-bit and with 32-bit index type in the stream (indices < 2^32). Checkpoints with up to three objects and identifier lengths 1..30 are restored to the right object in a different order, directly and through the BinaryStream image read by the real load(BinaryStream&).',
+                note='Trusted: clang-14 IR, irsym executor (validated against an ASan native build each run), z3 5.1.0. One defect found and fixed (serialising / shallow-copying any container with a zero-sized array aborted). NOT covered: MatrixMarket / exponent text modes (libstdc++ stream formatting and parsing is not in the IR) - the seeded change in the DenseMatrix mtx reader is NOT detected, and the MatrixMarket empty-row defect mentioned in the property text is not examined; float<->double stream conversion, compression, DistFileIO.',
                 ref='3/C05'),
     'C06': dict(cat='other', engine='E2',
                 technique='bounded symbolic execution of the real filter classes over a symbolic real scalar; z3 (NRA) decides constraint, complement-untouched and idempotence identities',
@@ -82,8 +82,8 @@ CHECKS = {
                 ref='3/C15'),
     'C16': dict(cat='other', engine='E2',
                 technique='bounded symbolic execution of the real assemblers (classic and DomainAssembler job route) on one cell with symbolic vertex coordinates; entry-wise identities and an independent closed-form Lagrange1 oracle decided by z3',
-                text='Partial (stated): on one symbolic cell per shape the real SymbolicAssembler / BilinearOperatorAssembler / LinearFunctionalAssembler / DomainAssembler jobs are executed; z3 decides classic == job route, Laplace row sums = 0, symmetry, sum of mass entries = sum_q w_q detJ(x_q), alpha-scaled repeated assembly, and for Lagrange1 that every entry equals an independent cubature sum of the textbook integrand. "Equals the integral" = this identity composed with C14 (rule exactness).',
-                note='Trusted: SymReal, z3 5.1.0, hand-written reference P1/Q1 basis + adjugate Jacobian inverse in the oracle. Several rational-function identities on general cells time out in the quick tier (inconclusive, listed). Outside: multi-cell scatter, voxel assemblers (float/double instantiations only), Burgers/defo assemblers, threaded routes (C17): the two seeded changes for C16 (voxel Poisson kernel, Burgers SD term) are NOT detected.',
+                text='Partial (stated): on one symbolic cell per shape the real SymbolicAssembler / BilinearOperatorAssembler / LinearFunctionalAssembler / DomainAssembler jobs are executed; z3 decides classic == job route, Laplace row sums = 0, symmetry, sum of mass entries = sum_q w_q detJ(x_q), alpha-scaled repeated assembly, and for Lagrange1 that every entry equals an independent cubature sum of the textbook integrand. "Equals the integral" = this identity composed with C14 (rule exactness). Voxel slice: the shared host/device cell kernel of the voxel Poisson assembler (Q2) on one non-affine quadrilateral (thorough: hexahedron) equals the classic Laplace assembly entry by entry.',
+                note='Trusted: SymReal, z3 5.1.0, hand-written reference P1/Q1 basis + adjugate Jacobian inverse in the oracle. Several rational-function identities on general cells time out in the quick tier (inconclusive, listed). Outside: multi-cell scatter, the voxel assembler drivers around the cell kernel and the other voxel kernels (Burgers, defo), Burgers/defo assemblers, threaded routes (C17): the seeded change in the Burgers streamline-diffusion term is NOT detected.',
                 ref='3/C16'),
     'C17': dict(cat='model_checking', engine='E3',
                 technique='own IR symbolic executor on the real DomainAssembler compile step with symbolic threading strategy and worker count (solver-guided forking over every value); partition / adjacency / two-layers-per-worker oracles per path',
